@@ -652,7 +652,25 @@ pub fn run(ctx: &Ctx) {
         sweep(ctx, ln, &sp, &cfgs, &b_long, 24);
         ln += 1;
     }
-    sweep(ctx, ln, &context("Init.bom", &[b"", b"\xEF\xBB", b"\xEF\xBB\xBF", b"\xEF\xBB\xBF\xEF\xBB\xBF"], b"<?xml >a", t.pick(4, 5), &[b""], false), &cfgs, &b, 64);
+    sweep(ctx, ln, &context("Init.bom", &[b"", b"\xEF\xBB", b"\xEF\xBB\xBF", b"\xEF\xBB\xBF\xEF\xBB\xBF", b"\xFF\xFE", b"\xFE\xFF"], b"<?xml >a", t.pick(4, 5), &[b""], false), &cfgs, &b, 64);
+    ln += 1;
+    // which bytes count as white space must not depend on the source (skip_whitespace exists once per source)
+    {
+        let sp = ws_class();
+        let cfg = 127u8;
+        let chk = Checker { seed: ctx.seed, ln, cfgs: &[cfg], pend_bound: 0 };
+        ctx.layer(&sp.name, ln, sp.total, sp.desc.clone(), |i, acc| {
+            let mut input = Vec::new();
+            sp.get(i, &mut input);
+            let mut r = Vec::new();
+            run_slice(&input, cfg, 2, &mut r);
+            mask_after_fatal(&mut r);
+            let refs = vec![r];
+            for sc in [Script::pieces(1), Script::whole()] {
+                chk.one(acc, i, &input, &refs, &[], &sc, false, 0);
+            }
+        });
+    }
     ln += 1;
     sweep(ctx, ln, &mid_bom(t.pick(2, 3)), &cfgs, &b, 64);
     ln += 1;
